@@ -34,6 +34,12 @@ ASSUME = ["arrivals are time-ordered; processing a message and running the callb
           "events at exactly the same instant may be ordered either way (the model returns all possible results)"]
 
 
+PARAM_SHAPES = (None, {}, {"a": {"b": [1, None, " "]}, "n": None},
+                {"_meta": {"traceparent": "00-ab-01", "tenant": 7}, "x": 1},          # the caller's own _meta entries must survive
+                {"_meta": {"progressToken": "stale-token", "k": None}, "y": [None]},  # a dict reused from an earlier call
+                {"_meta": {}})
+
+
 def gen(ctx):
     rng = ctx.rng
     out = []
@@ -112,7 +118,17 @@ def gen(ctx):
         has_cb = rng.random() < 0.5
         arr = [(t, mk(rng.choice(KINDS), me, i)) for i, t in enumerate(ts)]
         out.append({"D": D, "me": me, "cancel": c, "arrivals": arr, "has_cb": has_cb,
+                    "params": rng.choice(PARAM_SHAPES),
                     "cb_raise": {rng.randrange(0, 4)} if has_cb and rng.random() < 0.4 else set()})
+    # one cancellation token shared by several requests (a caller cancelling a group): every request owes its own notification
+    for nsib in (1, 2):
+        for c in (30, 50, 77):
+            for arr in ([], [(10, ("notif",))], [(60, ("res", ("me",), 5))]):
+                out.append({"D": 300, "me": "a", "cancel": c, "has_cb": False, "siblings": nsib, "arrivals": list(arr)})
+    # every params shape under a progress stream: the callback must fire for the token the REQUEST carries
+    for shape in PARAM_SHAPES:
+        out.append({"D": 200, "me": "a", "cancel": None, "has_cb": True, "params": shape,
+                    "arrivals": [(10, ("prog", True, 1)), (20, ("prog", False, 2)), (60, ("prog", True, 3)), (70, ("res", ("me",), 9))]})
     for s in out:
         s.setdefault("params", None)
         s.setdefault("cb_raise", set())
